@@ -2,7 +2,7 @@ package main
 
 func init() {
 	register(&propertySpec{
-		ID: "C02",
+		ID:          "C02",
 		Explanation: "decides the orientation of every last-writer-wins decision: Compare is the lexicographic sign function over (Era, Lamport, CUID); every overwrite of an existing element is guarded on all paths by 'existing strictly older than incoming'; updates never touch tombstones; the remote-insert skip loop passes only strictly newer siblings; the counter only adds. NOT decided: that 'greatest timestamp wins' follows from these guards over whole histories, 32-bit wrap-around, value-level outcomes.",
 		Assumptions: []string{"timestamps of distinct operations are distinct (C15)", "the enumerated mutation sites of R02.2 are the only ones (checked by the who-may-mutate part)"},
 		Rules:       []ruleFn{ruleR02_1, ruleR02_2, ruleR02_3, ruleR02_4, ruleR02_5, ruleR15_1, ruleR01_4},
@@ -11,7 +11,7 @@ func init() {
 
 func init() {
 	register(&propertySpec{
-		ID: "C01",
+		ID:          "C01",
 		Explanation: "decides that applying an operation is deterministic and exhaustive in the shape of the code: no identifier allocation or positioning inside a Go-map iteration; every operation type a datatype emits has a local and a remote arm; remote apply reads only transmitted fields; local and remote arms call their own variant; plus the cross-listed comparison, key-injectivity, delimiter and clock-sync rules. NOT decided: that the merge functions commute over all interleavings.",
 		Assumptions: []string{"CHA call graph restricted to the orda packages over-approximates the calls made on an apply path"},
 		Rules: []ruleFn{ruleR01_1, ruleR01_2, func(w *World, r *Report) { ruleR01_3(w, r, false) }, ruleR01_4,
@@ -21,7 +21,7 @@ func init() {
 
 func init() {
 	register(&propertySpec{
-		ID: "C03",
+		ID:          "C03",
 		Explanation: "decides validate-before-consume: positions are validated before an operation is built, nil values are refused before construction, the operation id is rolled back on every failing path, a failed local execution appends nothing to the push buffer, and no result is used before its error is checked. NOT decided: value-level equality with the plain data structure, the bounds arithmetic inside the validators, nil values nested inside containers.",
 		Assumptions: []string{"validate* functions of the snapshots are correct"},
 		Rules:       []ruleFn{ruleR03_1, ruleR03_2, ruleR03_3, ruleR03_4, ruleR03_5, ruleR03_6, ruleR03_7, ruleR04_5, ruleR04_4},
@@ -30,7 +30,7 @@ func init() {
 
 func init() {
 	register(&propertySpec{
-		ID: "C04",
+		ID:          "C04",
 		Explanation: "decides the structural facts list/array integrity rests on: remote list operations address by identity (never by index), nothing unlinks or forgets a node, every insert registers its node exactly once under its order time, sizes are decremented once per live element, index-based walks skip tombstones, updates never resurrect and concurrent siblings are ordered newest first by their immutable order time. NOT decided: the RGA ordering invariant over all interleavings; immediate readability at index i.",
 		Assumptions: []string{"element identifiers are unique (C15)"},
 		Rules: []ruleFn{func(w *World, r *Report) { ruleR01_3(w, r, true) }, ruleR04_2, ruleR04_3, ruleR04_4, ruleR04_5, ruleR04_6,
@@ -56,7 +56,7 @@ func init() {
 		ID: "C07", NeedsServer: true,
 		Explanation: "decides the three structural defences against lost/duplicated/delayed messages: the server ignores a re-pushed operation by client sequence, a stale response cannot move the client checkpoint back, and own operations are filtered by origin on one side (known finding F15: they are not); plus apply order and checkpoint arithmetic. NOT decided: the count-based skipping itself, which is arithmetic over run-time checkpoints.",
 		Assumptions: []string{},
-		Rules: []ruleFn{func(w *World, r *Report) { ruleR06_1(w, r, false) }, ruleR05_2, ruleR07_3, ruleR05_1, ruleR05_5},
+		Rules:       []ruleFn{func(w *World, r *Report) { ruleR06_1(w, r, false) }, ruleR05_2, ruleR07_3, ruleR05_1, ruleR05_5},
 	})
 }
 
@@ -69,7 +69,7 @@ func init() {
 			func(w *World, r *Report) { ruleR06_1(w, r, false) }},
 	})
 	register(&propertySpec{
-		ID: "C09",
+		ID:          "C09",
 		Explanation: "decides the commit/rollback gating of transactions: a failing body marks the transaction failed, delivery and recording happen only on success, rollback is restore-then-replay with errors propagated, the announced length of a received unit is checked against the received batch before slicing and before applying. NOT decided: that restore-and-replay reproduces the earlier state (depends on C10 and the whole history); a body that panics.",
 		Assumptions: []string{"snapshot round trip is faithful (C10)"},
 		Rules:       []ruleFn{ruleR09_1, ruleR09_2, ruleR09_3, ruleR09_4, ruleR09_5, ruleR03_3, ruleR03_4},
@@ -78,7 +78,7 @@ func init() {
 
 func init() {
 	register(&propertySpec{
-		ID: "C10",
+		ID:          "C10",
 		Explanation: "decides writer/reader agreement of the snapshot state: every field of every state struct is written on the restore path and read on the capture path (or is in the table of fields rebuilt from captured state), the marshalled and unmarshalled DTOs have the same keys, exported and unique, GetMeta/SetMeta agree field by field, the list index is keyed by the order time also after a restore, and the export/import pair is used by rollback and by the server rebuild. NOT decided: that the rebuilt indexes equal the originals, i.e. indistinguishability itself.",
 		Assumptions: []string{"encoding/json reads/writes exactly the exported, non-\"-\" fields of a struct it is handed"},
 		Rules:       []ruleFn{ruleR10_1, ruleR10_2, ruleR10_3, ruleR10_4, ruleR10_5, ruleR04_6},
@@ -123,7 +123,7 @@ func init() {
 
 func init() {
 	register(&propertySpec{
-		ID: "C15",
+		ID:          "C15",
 		Explanation: "decides that the identity key of a timestamp is an injective format, that comparison is the lexicographic sign function (a total order on distinct (Era, Lamport, CUID)), that every element created repeatedly within one operation takes a fresh delimiter, that the numbering of operation ids has a closed set of writers with the expected increments and resets, and that the clock is synchronised before every remote apply. NOT decided: gaplessness of a client's numbering across whole histories with failures and rollbacks (R03.3/R09.x give the local pairing only).",
 		Assumptions: []string{"client ids are unique"},
 		Rules:       []ruleFn{ruleR15_1, ruleR02_1, ruleR15_3, ruleR15_4, ruleR15_5, ruleR13_3, ruleR03_3},
@@ -165,7 +165,7 @@ func init() {
 
 func init() {
 	register(&propertySpec{
-		ID: "C20",
+		ID:          "C20",
 		Explanation: "decides the lock discipline of a client datatype and its manager from the shape of the code: which accesses of the mutex-protected fields lie outside the BeginTransaction..EndTransaction brackets (known findings F18: BeginTransaction's pre-lock test, unlock's late store, the whole sync path, the manager's map), that every exchange holds the manager's semaphore (known finding: the notification path does not), and that semaphore and mutex are released on every exit. NOT decided: absence of lost updates and deadlocks over real schedules (no pointer analysis; the lockset is function-level).",
 		Assumptions: []string{"a function is treated as running under the lock only if every call site in the CHA graph is inside the brackets"},
 		Rules:       []ruleFn{ruleR20_1, ruleR20_2, ruleR20_3},
@@ -232,6 +232,20 @@ func init() {
 	add("C06", ruleR06_5)
 	add("C11", ruleR06_5, ruleR09_4)
 	add("C18", ruleR13_3)
+	// guards of the round-4 repairs
+	add("C10", ruleR10_7)
+	add("C09", ruleR10_7, ruleR19_6)
+	add("C19", ruleR19_6, ruleR19_7, ruleR11_6, ruleR03_11)
+	add("C20", ruleR19_6)
+	add("C03", ruleR19_6, ruleR19_7, ruleR03_9, ruleR03_10, ruleR03_11)
+	add("C11", ruleR11_6)
+	add("C17", ruleR17_11)
+	add("C13", ruleR13_6)
+	add("C07", ruleR13_6)
+	add("C09", ruleR09_9, ruleR09_10)
+	add("C03", ruleR03_12)
+	add("C13", ruleR03_12)
+	add("C16", ruleR03_12)
 	for _, id := range []string{"C04", "C13"} {
 		registry[id].NeedsServer = registry[id].NeedsServer || id == "C13"
 	}
